@@ -11,9 +11,10 @@
            the container is rendered; the guard errs when the node is met again with no name written in between
            (equal generations included); the written-as-reference test separates the table's initial value from
            every generation and only its never-written edge marks the node (shared with C19)
-  NAMESPACE the renderer threads namespaces as the parser does: record fields get the record's namespace, other
-           children inherit; a reference to a null-namespace name from inside a namespace is written ".name"
-  REQUIRED every key the parser requires for a kind / logical type is written on every path of its arm
+  NAMESPACE the renderer threads namespaces as the parser does: record fields get the record's namespace (exactly the
+           one passed: no fallback to the enclosing namespace for a null-namespace record), other children inherit; a reference to a null-namespace name from inside a namespace is written ".name"
+  REQUIRED every key the parser requires for a kind / logical type is written on every path of its arm; every "type"
+           entry is written together with the logical type (after the logicalType entry, or where it is None)
 It does NOT decide isomorphism of the re-parsed graph for every built graph.
 """
 from ..lib import *
@@ -460,6 +461,25 @@ def namespace(ctx):
             ok = lit == ('.', False) and full and none_guard
             det = 'null-namespace reference is formatted as %r + fully_qualified_name(): %s, under namespace().is_none(): %s' % (lit[0] if lit else None, full, none_guard)
     ctx.ob('NAMESPACE', 'null-namespace-ref-has-leading-dot', ok, short_loc(b.span) if b else None, det)
+    # ... and a DEFINITION of a name in the null namespace inside another namespace writes "namespace": "" (a fixed
+    # without namespace inside a namespaced record - what the derive macro makes of [u8; N] - would otherwise be read
+    # back inside the record's namespace)
+    b = fn_by_label(f, SER + 'SerializeSchema::serialize_name')
+    ok, det = False, 'serialize_name not found'
+    if b is not None:
+        sites = [(bb, t) for bb, t in b.calls() if (t.get('callee') or '').endswith('SerializeMap::serialize_entry') and not b.is_cleanup(bb) and
+                 {x for x in origin(b, t['args'][1]).consts() if isinstance(x, str)} == {'namespace'}]
+        det = '%d "namespace" entry site(s)' % len(sites)
+        if len(sites) >= 1:
+            empty = all({x for x in origin(b, t['args'][2]).consts() if isinstance(x, str)} == {''} for bb, t in sites)
+            guarded = all(any('None' in names for names, adt, oo, d_, oth in option_guards(b, bb)) or
+                          any(strip_generics(cname(c)).endswith('Option::is_none') for d, si, taken in dominating_switches(b, bb) for c in origin(b, si.get('op') or si.get('place')).calls)
+                          for bb, t in sites)
+            named = all(any((t2.get('callee') or '').endswith('SerializeMap::serialize_entry') and {x for x in origin(b, t2['args'][1]).consts() if isinstance(x, str)} == {'name'}
+                            for bb2, t2 in b.calls() if bb2 in b.reachable_from(bb)) for bb, t in sites)
+            ok = empty and guarded and named
+            det = '"namespace": "" written where the name has no namespace (and the enclosing one differs), followed by the name: empty %s, under is_none %s, name follows %s' % (empty, guarded, named)
+    ctx.ob('NAMESPACE', 'null-namespace-definition-restored', ok, short_loc(b.span) if b else None, det)
 
 
 def key_sites(b, key):
